@@ -30,14 +30,14 @@ ASSUMPTIONS = [
 ]
 REPORT_COUNTERS = ["programs", "calls", "entries_checked", "params_checked", "entries_dependent_param",
                    "entries_via_call_next", "entries_via_recurse", "entries_composite_param", "omitted_defaults_seen",
-                   "kw_params_checked", "other_exceptions"]
+                   "kw_params_checked", "kw_dependent_params_checked", "other_exceptions"]
 
 
 def plan(tier):
     n = 2400 if tier == "quick" else 60000
     return {"cases": n, "params": {}, "timeout_s": 1200 if tier == "quick" else 7200,
             "min": {"entries_checked": 20_000, "entries_dependent_param": 2_000, "entries_via_call_next": 1_000,
-                    "entries_composite_param": 2_000, "kw_params_checked": 300}}
+                    "entries_composite_param": 2_000, "kw_params_checked": 300, "kw_dependent_params_checked": 100}}
 
 
 def gen_case(rng, params, idx):
@@ -51,9 +51,11 @@ def gen_case(rng, params, idx):
         if ar > 1 and rng.random() < 0.25:
             pos[-1]["opt"] = True
         kws = []
-        if rng.random() < 0.15:
+        if rng.random() < 0.25:
             for k in rng.sample(["k1", "k2"], rng.choice([1, 2])):
-                kws.append({"n": k, "t": rng.choice(classes + ["object", "int"]), "req": rng.random() < 0.5})
+                # keyword-only parameters carry value-dependent annotations too
+                kt = gen.gen_dep_tx(rng, classes) if rng.random() < 0.4 else rng.choice(classes + ["object", "int"])
+                kws.append({"n": k, "t": kt, "req": rng.random() < 0.5})
             kws.sort(key=lambda k: k["n"])
         kind = rng.choice(["leaf", "leaf", "next", "rec", "nextalt", "recnest"] + (["fnext"] if not kws and ar == npos else []))
         if any(p.get("opt") for p in pos) and kind in ("next", "fnext"):
@@ -107,6 +109,8 @@ def check_case(spec, res):
             res.count("params_checked")
             if p in m.get("kw", []):
                 res.count("kw_params_checked")
+                if T.is_valuedep(t):
+                    res.count("kw_dependent_params_checked")
             if T.is_valuedep(t):
                 dep = True
             if not isinstance(t, str):
